@@ -13,7 +13,7 @@ CUT_FMT = "cut: core::fmt::write / alloc::fmt::format -> no-op (subject is not f
 
 class H:
     def __init__(self, name, crate, props, funcs, bound, tier="quick", timeout=900, mem_gb=12, stubs=(),
-                 args=(), expect="pass", finding=None, thorough_only=False, note="", qname=None, exp_gb=3):
+                 args=(), expect="pass", finding=None, thorough_only=False, note="", qname=None, exp_gb=3, unwindset=None):
         self.name = name
         self.crate = crate
         self.props = props
@@ -29,13 +29,14 @@ class H:
         self.note = note
         self.qname = qname
         self.exp_gb = exp_gb
+        self.unwindset = unwindset
 
 
 HARNESSES = [
     # ---------------- parser.rs: kernels -------------------------------------------------------
-    H("k_escaped_u64", "main", ["C10", "C01"], ["parser::get_escaped_branchless_u64"],
+    H("k_escaped_u64", "main", ["C10"], ["parser::get_escaped_branchless_u64"],
       "all 2^64 backslash masks x both carry values (complete)"),
-    H("k_escaped_u32", "main", ["C10", "C01"], ["parser::get_escaped_branchless_u32"],
+    H("k_escaped_u32", "main", ["C10"], ["parser::get_escaped_branchless_u32"],
       "all 2^32 backslash masks x both carry values (complete)"),
     H("k_is_whitespace", "main", ["C02", "C10"], ["parser::is_whitespace"], "all 256 bytes (complete)"),
     # ---------------- parser.rs: scanners ------------------------------------------------------
@@ -63,10 +64,10 @@ HARNESSES = [
     H("u_parse_object_clo_n6", "main", ["C02", "C14"], ["Parser::parse_object_clo"],
       "every buffer of length <= 6 x every start index", stubs=[CUT_SYNTAX]),
     # ---------------- parser.rs: modular steps -------------------------------------------------
-    H("m_skip_array_n6", "main", ["C02", "C14", "C01"], ["Parser::skip_array", "Parser::skip_space", "Parser::skip_space_peek"],
+    H("m_skip_array_n6", "main", ["C02", "C14"], ["Parser::skip_array", "Parser::skip_space", "Parser::skip_space_peek"],
       "every buffer of length <= 6 after '[' x every element recogniser E (symbolic table)",
       stubs=[CUT_SYNTAX, "contract model: Parser::skip_one -> abstract element recogniser E"]),
-    H("m_skip_object_n7", "main", ["C02", "C14", "C01"],
+    H("m_skip_object_n7", "main", ["C02", "C14"],
       ["Parser::skip_object", "Parser::skip_string", "Parser::parse_object_clo", "Parser::skip_space"],
       "every buffer of length <= 7 after '{' x every element recogniser E (symbolic table)",
       stubs=[CUT_SYNTAX, "contract model: Parser::skip_one -> abstract element recogniser E"]),
@@ -80,22 +81,22 @@ HARNESSES = [
 
 HARNESSES += [
     # ---------------- util/string.rs -------------------------------------------------------------
-    H("k_string_block", "main", ["C09", "C02", "C01"], ["StringBlock::new", "StringBlock::{has_unescaped,has_quote_first,has_backslash,quote_index,bs_index,unescaped_index}", "BitMask::before/first_offset"],
+    H("k_string_block", "main", ["C09", "C02"], ["StringBlock::new", "StringBlock::{has_unescaped,has_quote_first,has_backslash,quote_index,bs_index,unescaped_index}", "BitMask::before/first_offset"],
       "all 32-byte blocks (complete)", stubs=[MAXEPU8]),
     H("k_string_tables", "main", ["C05", "C09"], ["ESCAPED_TAB", "QUOTE_TAB", "NEED_ESCAPED"], "all 256 bytes (complete)"),
     H("k_check_cross_page", "main", ["C01", "C05"], ["check_cross_page"], "all pointers <= usize::MAX-64 (complete)"),
     H("u_format_string_n6", "main", ["C05", "C01"], ["format_string", "escape_unchecked", "escaped_mask", "check_cross_page"],
       "every byte string of length <= 6 (superset of valid UTF-8), with and without quotes; tail path (n < 32)",
-      stubs=[MAXEPU8, CUT_FMT]),
+      stubs=[MAXEPU8, CUT_FMT], mem_gb=28, exp_gb=14, timeout=1500),
     H("u_format_string_n8", "main", ["C05"], ["format_string", "escape_unchecked", "escaped_mask", "check_cross_page"],
       "every byte string of length <= 8 (superset of valid UTF-8), with and without quotes; tail path (n < 32)",
-      stubs=[MAXEPU8, CUT_FMT], tier="thorough", timeout=2400),
+      stubs=[MAXEPU8, CUT_FMT], tier="thorough", timeout=3000, mem_gb=40, exp_gb=30),
     # ---------------- util/unicode.rs ------------------------------------------------------------
     H("k_hex_to_u32", "main", ["C09", "C01"], ["hex_to_u32_nocheck", "DIGIT_TO_VAL32"], "all 2^32 four-byte groups (complete)"),
     H("k_codepoint_to_utf8", "main", ["C09", "C01"], ["codepoint_to_utf8"], "all u32 code points (complete)"),
     H("k_unicode_inplace", "main", ["C09", "C01"], ["handle_unicode_codepoint_mut", "repr_utf16_surrogate", "hex_to_u32_nocheck", "codepoint_to_utf8"],
       "all 2^80 sequences `\\uXXXX` + 6 following bytes x {strict, lossy} (complete for one escape sequence / surrogate pair)"),
-    H("k_unicode_copying", "main", ["C09", "C02", "C01"], ["Parser::parse_escaped_utf8", "codepoint_to_utf8 (caller's validity test)"],
+    H("k_unicode_copying", "main", ["C09", "C02"], ["Parser::parse_escaped_utf8", "codepoint_to_utf8 (caller's validity test)"],
       "every buffer of length <= 10 after `\\u` (all truncations) x {strict, lossy}", stubs=[CUT_SYNTAX]),
     H("u_parse_string_raw_borrowed_n8", "main", ["C09", "C02", "C10"], ["Parser::parse_string_raw (escape-free branch)"],
       "every buffer of length <= 8 after the opening quote with no backslash before the closing quote", stubs=[CUT_SYNTAX]),
@@ -108,9 +109,106 @@ HARNESSES += [
       "all 9 static type tags, all static string lengths < u32::MAX (complete)"),
 ]
 
+M_WS = "contract model: Parser::skip_space -> first non-whitespace byte (justified by u_skip_space_n6)"
+M_STR = "contract model: Parser::skip_string -> RFC 8259 string recogniser (justified by u_skip_string_n8)"
+M_NUM = "contract model: Parser::skip_number -> RFC 8259 number recogniser (justified by u_skip_number_n6)"
+M_ONE = "contract model: Parser::skip_one -> whitespace + abstract value recogniser E (symbolic table = induction hypothesis; dispatch decided by m_skip_one_dispatch_n7)"
+M_NEST = "contract model: Parser::skip_array/skip_object -> abstract recogniser E (induction hypothesis; steps decided by m_skip_array_n6 / m_skip_object_n7)"
+CUT_PIT = "cut: Parser::peek_invalid_type -> type-mismatch error without re-parsing the offending value"
+M_KEY = "contract model: Parser::parse_string_raw -> borrowed span, escape-free keys only (justified by u_parse_string_raw_borrowed_n8); keys with escapes assumed away"
+HARNESSES += [
+    H("m_skip_one_dispatch_n7", "main", ["C02", "C14", "C13", "C01", "C10"], ["Parser::skip_one", "nested! (depth budget)", "Parser::parse_literal"],
+      "every buffer of length <= 7 x every start index x every budget d in 1..=255 x every nested recogniser E",
+      stubs=[CUT_SYNTAX, M_WS, M_STR, M_NUM, M_NEST]),
+    H("m_get_array_checked_n7", "main", ["C10", "C14"], ["Parser::get_from_array_checked", "Parser::skip_space_peek"],
+      "every buffer of length <= 7 x index 0..=3 x every E", stubs=[CUT_SYNTAX, M_WS, M_ONE, CUT_PIT]),
+    H("m_get_object_checked_n8", "main", ["C10", "C14"], ["Parser::get_from_object_checked", "Parser::parse_object_clo"],
+      "every buffer of length <= 8 x every escape-free ASCII key of length <= 2 x every E", stubs=[CUT_SYNTAX, M_WS, M_ONE, M_KEY, CUT_PIT], timeout=1200),
+    H("m_get_object_checked_n9", "main", ["C10", "C14"], ["Parser::get_from_object_checked", "Parser::parse_object_clo"],
+      "every buffer of length <= 9 x every escape-free ASCII key of length <= 2 x every E", stubs=[CUT_SYNTAX, M_WS, M_ONE, M_KEY, CUT_PIT], timeout=2400, tier="thorough"),
+    H("m_array_elem_lazy_n7", "main", ["C12", "C14"], ["Parser::parse_array_elem_lazy (check = true)", "Parser::skip_space_peek"],
+      "every buffer of length <= 7 x every start index x first in {true,false} x every E", stubs=[CUT_SYNTAX, M_WS, M_ONE]),
+    H("u_parser_error_clamp_n6", "main", ["C20", "C01"], ["Parser::error", "Parser::error_index"],
+      "every buffer of length <= 6 x every reader index x every recorded error index (usize)", stubs=[CUT_SYNTAX]),
+    H("u_parser_error_clamp_padded_n6", "main", ["C20", "C01"], ["Parser::error (PaddedSliceRead)", "PaddedSliceRead::{index,set_index,as_u8_slice}"],
+      "6-byte document + 64-byte padding x every cursor position inside the padded buffer x every recorded error index", stubs=[CUT_SYNTAX]),
+]
+
+CUT_FIX = "cut: Parser::fix_position -> identity (error rendering is not the subject)"
+_DEPTH = [("m_depth_any_seq", "deserialize_any on '['"), ("m_depth_any_map", "deserialize_any on '{'"), ("m_depth_seq", "deserialize_seq/tuple/tuple_struct"),
+          ("m_depth_map", "deserialize_map"), ("m_depth_struct_seq", "deserialize_struct on '['"), ("m_depth_struct_map", "deserialize_struct on '{'")]
+for _n, _f in _DEPTH:
+    HARNESSES.append(H(_n, "main", ["C01"], tier="thorough" if "_any_" in _n else "quick", timeout=3600 if "_any_" in _n else 900, funcs=["serde::de::DepthGuard::guard/drop", "impl Deserializer for &mut Deserializer<R>: " + _f, "Deserializer::end_seq/end_map"],
+                       bound="every budget d in 1..=255 (inductive step: nested access sees d-1, d restored, d == 1 rejected without recursing); input fixed to an empty container",
+                       stubs=[CUT_SYNTAX, M_WS, CUT_PIT, CUT_FIX]))
+HARNESSES += [
+    H("m_seq_next_element_n6", "main", ["C02"], ["SeqAccess::next_element_seed", "Deserializer::end_seq", "deserialize_ignored_any"],
+      "every buffer of length <= 6 x every start index x first in {true,false} x every E", stubs=[CUT_SYNTAX, M_WS, M_ONE]),
+    H("m_end_seq_map_n6", "main", ["C02"], ["Deserializer::end_seq", "Deserializer::end_map", "Parser::parse_array_end"],
+      "every buffer of length <= 6 x every start index", stubs=[CUT_SYNTAX, M_WS]),
+    H("m_stream_latch_n5", "main", ["C20"], ["StreamDeserializer::next", "Deserializer::into_stream"],
+      "every buffer of length <= 5 x every start index x arbitrary latch state x every E; two consecutive calls", stubs=[CUT_SYNTAX, M_WS, M_ONE]),
+    H("u_deserialize_rawnumber_n7", "main", ["C08", "C02"], ["Deserializer::deserialize_rawnumber"],
+      "every buffer of length <= 7 (bare and quoted literals)", stubs=[CUT_SYNTAX, M_WS, M_NUM]),
+]
+
+ATOMIC = ("env model: AtomicPtr of lazyvalue/value.rs and owned.rs -> harness/common/atomic_shim.rs (other reader may publish at every atomic step; "
+          "compare_exchange_weak may fail spuriously; sequentially consistent)")
+HARNESSES += [
+    H("e_lazy_parse_from", "main", ["C18", "C01"], ["lazyvalue::value::Inner::parse_from", "impl Clone for Inner", "impl Drop for Inner"],
+      "one shared Inner: 2 reads + 1 read through a clone by the reader under test, clone before/after the first read, both drop orders, "
+      "the other reader's publish at any of the atomic steps (all two-reader interleavings at atomic-step granularity)",
+      stubs=[ATOMIC, "cut: from_slice_unchecked::<String> -> fixed decoding \"x\"", "instrumented: Arc::new -> same allocation + reference ledger"]),
+]
+
+HARNESSES += [
+    H("m_array_iter_latch", "main", ["C12", "C20"], ["ArrayJsonIter::next_elem_impl"],
+      "arbitrary (first, ending, skip_strict) state x every outcome of the element driver; two consecutive calls",
+      stubs=["contract model: Parser::parse_array_elem_lazy -> nondeterministic {element, end, error} (its grammar is decided by m_array_elem_lazy_n7)"]),
+    H("m_object_iter_latch", "main", ["C12", "C20"], ["ObjectJsonIter::next_entry_impl"],
+      "arbitrary (first, ending, skip_strict) state x every outcome of the entry driver; two consecutive calls",
+      stubs=["contract model: Parser::parse_entry_lazy -> nondeterministic {entry, end, error}"]),
+    H("u_owned_from_lazy_types", "main", ["C13", "C01"], ["impl From<LazyValue> for OwnedLazyValue", "OwnedLazyValue::new", "OwnedLazyValue::get_type/as_bool", "LazyRaw::get_type"],
+      "raw text of each JSON value class (true,false,null,number,negative number,string,[],{}), conversion From<LazyValue>; string escape status symbolic", exp_gb=8),
+    H("u_owned_new_types", "main", ["C13", "C01"], ["OwnedLazyValue::new (used by to_lazyvalue and the parser)", "OwnedLazyValue::get_type/as_bool", "LazyRaw::get_type"],
+      "raw text of each JSON value class, constructor `new`; string escape status symbolic", exp_gb=8),
+]
+
+for _n, _w in (("k_block_step_obj_w0", 0), ("k_block_step_arr_w16", 16), ("k_block_step_obj_w32", 32), ("k_block_step_arr_w48", 48)):
+    HARNESSES.append(H(_n, "main", ["C10", "C01"] if _w == 0 else ["C10"], ["parser::skip_container_loop", "parser::get_string_bits", "get_escaped_branchless_u64", "prefix_xor (fallback)", "u8x64::eq/bitmask"],
+                       "every carry state (in-string, pending escape, counters < 2^20) x every 64-byte block that is symbolic in the 16-byte window at offset %d and neutral ('x') elsewhere" % _w,
+                       timeout=1500, exp_gb=6, tier="quick" if _w in (0, 48) else "thorough",
+                       unwindset=[("ref_block_step", None, 66), ("windowed", None, 18), ("block_step_body", None, 18)]))
+HARNESSES += [
+    H("u_skip_container_tail_n8", "main", ["C10", "C01"], ["Parser::skip_container (zero-padded tail block)", "parser::skip_container_loop"],
+      "every buffer of length <= 8 x {array, object}", stubs=[CUT_SYNTAX], timeout=1500, exp_gb=6),
+]
+
+HARNESSES += [
+    H("k_float_nonfinite_null", "main", ["C05", "C08"], ["Serializer::serialize_f64", "Serializer::serialize_f32", "Formatter::write_null/write_f64/write_f32"],
+      "all 2^64 f64 and all 2^32 f32 bit patterns (complete for the finite/non-finite branch)", stubs=["cut: ryu::Buffer::format_finite -> \"1.5\" (digit generation is outside the claim)"]),
+    H("w_compound_shape", "main", ["C05"], ["Compound (SerializeSeq/SerializeMap)", "CompactFormatter", "PrettyFormatter", "to_vec", "to_vec_pretty", "Formatter::write_string_fast", "format_string"],
+      "fixed shape [b,[b],[],{\"k\":b,\"\":null},{}] with symbolic boolean leaves x {compact, pretty}", stubs=[MAXEPU8], timeout=1500, exp_gb=6, unwindset=[("serde_ser::push", None, 40), ("expect_", None, 40)]),
+    H("w_failing_writer", "main", ["C05"], ["to_writer", "Compound", "WriteExt::reserve_with/flush_len protocol", "Error::io"],
+      "writer failing after k <= 16 bytes x object with one symbolic ASCII key byte and a symbolic bool", stubs=[MAXEPU8, CUT_FMT], timeout=1500, exp_gb=6, unwindset=[("Failing", None, 20)]),
+]
+
+HARNESSES += [
+    H("e_owned_load", "main", ["C18", "C01"], ["lazyvalue::owned::LazyRaw::load", "LazyRaw::clone_lazyraw", "impl Drop for LazyRaw"],
+      "one shared LazyRaw: 2 loads by the reader under test + clone + drop, the other reader's publish at any atomic step",
+      stubs=[ATOMIC, "cut: Parser::load_owned_lazyvalue -> fixed decoding Bool(true)"]),
+]
+
+HARNESSES += [
+    H("b_skip_string_w24", "main", ["C02", "C14", "C09", "C01"], ["Parser::skip_string (32-byte block path + tail)", "Parser::skip_escaped_chars", "u8x32::{eq,le,bitmask}"],
+      "40-byte buffer: neutral 'x' except a 10-byte symbolic window at 24..34 (across the block edge) and a closing quote at 38",
+      stubs=[CUT_SYNTAX, MAXEPU8], timeout=1500, exp_gb=6,
+      unwindset=[("::skip_string", 1, 18), ("ref_string_end", None, 42), ("ref_has_backslash", None, 42), ("windowed", None, 12), ("any_array", None, 12), ("skip_escaped_chars", None, 6), ("try_from_fn", None, 12)]),
+]
+
 CUT_PF = "cut: sonic_number::parse_float -> nondeterministic Ok(Float)/Err(FloatMustBeFinite) (classification and index only)"
 HARNESSES += [
-    H("u_parse_number_int_len1_12", "number", ["C07", "C08", "C01"], ["sonic_number::parse_number (integer path)"],
+    H("u_parse_number_int_len1_12", "number", ["C07", "C08"], ["sonic_number::parse_number (integer path)"],
       "every decimal digit string of length 1..=12 without superfluous leading zero, with and without '-'", stubs=[CUT_PF]),
     H("u_parse_number_int_len19", "number", ["C07", "C08"], ["sonic_number::parse_number (integer path, 19 digits)"],
       "every 19-digit string, with and without '-' (i64::MIN / 2^63 boundary)", stubs=[CUT_PF], timeout=1500),
@@ -122,11 +220,11 @@ HARNESSES += [
       "every byte string of length <= 7 starting with '-' or a digit", stubs=[CUT_PF]),
     H("k_parse_exponent_n8", "number", ["C07", "C01"], ["sonic_number::parse_exponent"], "every buffer of length <= 8"),
     H("k_float_fast_mul_e1", "number", ["C07"], ["sonic_number::parse_float_fast"], "E = 1, every significand < 2^20"),
-    H("k_float_fast_mul_e22", "number", ["C07"], ["sonic_number::parse_float_fast"], "E = 22, every significand < 2^20"),
+    H("k_float_fast_mul_e10", "number", ["C07"], ["sonic_number::parse_float_fast"], "E = 10, every significand < 2^20", tier="thorough", timeout=2400),
     H("k_float_fast_div_e3", "number", ["C07"], ["sonic_number::parse_float_fast"], "E = -3, every significand < 2^16",
       stubs=["assumption: IEEE 754 division is correctly rounded"]),
-    H("k_float_fast_div_e22", "number", ["C07"], ["sonic_number::parse_float_fast"], "E = -22, every significand < 2^16",
-      stubs=["assumption: IEEE 754 division is correctly rounded"]),
+    H("k_float_fast_div_e10", "number", ["C07"], ["sonic_number::parse_float_fast"], "E = -10, every significand < 2^16",
+      stubs=["assumption: IEEE 754 division is correctly rounded"], tier="thorough", timeout=2400),
     H("k_pow10_tables", "number", ["C07"], ["POW10_FLOAT", "POW10_UINT"], "all 23 / 18 entries (complete)"),
 ]
 
